@@ -278,3 +278,13 @@ pub fn from_utf8_lossy_model(v: &[u8]) -> std::borrow::Cow<'_, str> {
     assert!(utf8_ok_slice(v), "verif: from_utf8_lossy called on ill-formed UTF-8");
     std::borrow::Cow::Borrowed(unsafe { core::str::from_utf8_unchecked(v) })
 }
+
+/// In array-only instances no ObjectBuilder is ever created; the `Entry::ObjectBuilder` arm of
+/// `write_entry` is unreachable. Stubbing its callee with a panic prunes the arm for the symbolic
+/// executor (which cannot see the enum tag behind the heap pointer) and PROVES that it is not taken.
+pub fn no_object_builder<'a>(_b: crate::builder::ObjectBuilder<'a>, _buf: &mut Vec<u8>) -> usize
+where
+    'a: 'a,
+{
+    panic!("verif: ObjectBuilder::build_into reached in an array-only instance")
+}
